@@ -63,6 +63,9 @@ def enumerate_cases(tier):
     # full-grid-smoothing mode 2: only the "a reported stop is true" half
     for geom, prob, (alpha, beta), dirbc, strat, cycle in itertools.product((0, 1, 2), (0, 2), PROFILES[1::2], (0, 1), (0, 1), (0, 1, 2)):
         cases.append(("mode2", base(geom, prob, alpha, beta, dirbc, strat, 2, cycle)))
+    # two-level hierarchies take the direct-solve branch of every cycle function: full product of the cycle-related options
+    for (alpha, beta), dirbc, strat, extr, cycle, fmg in itertools.product(((1, 0), (3, 1)), (0, 1), (0, 1), (0, 1, 3), (0, 1, 2), (0, 1)):
+        cases.append(("twolevel", base(1 + dirbc, 2 - dirbc, alpha, beta, dirbc, strat, extr, cycle, maxlev=2, fmg=fmg, fmg_cycle=cycle)))
     # deviations from representative cores
     cores = [dict(), dict(geom=1, prob=2, alpha=2, beta=1, strat=1, extr=1), dict(geom=2, prob=1, alpha=3, beta=0, dirbc=1, extr=3, cycle=1),
              dict(geom=2, prob=2, alpha=3, beta=1, strat=1, extr=1, cycle=2), dict(geom=1, prob=0, alpha=0, beta=0, dirbc=1, strat=1),
